@@ -205,7 +205,7 @@ def run(R):
               "bounds that are negative for some (register_system) or all (register_bounds) sources; register_targets: four -- two target sets without importance weights, one with per-filter "
               "weights W, one with per-sample-and-filter weights W; the target sets hold targets outside the gamut, so the "
               "weighting decides the fit); default or per-filter constructor weights w: exhaustive up to length %d, random of "
-              "length 5-%d beyond; read-only query bundles (captures, "
+              "length 5-%d (plus 0-2 inserted rejected registrations / re-registrations of the estimator's own arrays) beyond; read-only query bundles (captures, "
               "gamut tests, ranges, seeded sampling, fits with explicit targets) interleaved at random. After EVERY step the "
               "estimator's A, K, baseline, bounds, system captures, relative captures, in_system, registered targets and fitting weights W are compared with the Lean "
               "state machine (exact rationals); at the end of every history the engine-backed queries -- including in_hull(), "
@@ -216,7 +216,19 @@ def run(R):
               "in the same process and (random histories, a tenth of the exhaustive ones) once in a fresh process in which no dreye "
               "function was called before, while the checking process has already served an earlier default-option estimator "
               "(state leaking through module-level objects / default arguments); chromatic (l1-normalised) queries only under "
-              "non-negative lower bounds; caller arrays are hashed around every call. Non-trivial: the "
+              "non-negative lower bounds; caller arrays are hashed around every call. "
+              "Rejected registrations (letter `rej` of the alphabet, exhaustive and random histories): register_bounds / register_system "
+              "(one in four) with a bound vector the library refuses (a NaN entry, or finite and infinite entries mixed; lower or upper "
+              "bound; array or list), alone or together with a valid NEW value for the other bound (and new sources): the call must raise, "
+              "the model is not advanced (a registration call that raises registers nothing), the whole state digest must be what it "
+              "was, and the following steps are compared with the model as before. "
+              "Arguments that ARE the estimator's own arrays: every query bundle also calls two queries (one of fit "
+              "gaussian/poisson, minimize_variance, fit_underdetermined, in_hull, range_of_solutions, hull_l1_scaling with est.B or "
+              "est.target_B; one closed-form / geometric one, also in_system / system_capture with est.lb, est.ub) with the very array "
+              "object the estimator holds and again with an equal copy: same kind of result, same numbers (fits 1e-5, ranges 1e-9 of "
+              "the scale, others exactly), both raise or neither, state digest unchanged; random histories also re-register the "
+              "estimator's own arrays (register_targets(est.B, W=est.W), register_bounds(lb=est.lb, ub=est.ub)), the model receiving the values. "
+              "The twin's sources are those the harness registered last. Non-trivial: the "
               "history contains a re-registration or a query between two registrations." % (2 if quick else 3, 12 if quick else 25))
     rng0 = R.rng(0)
     nf, nd = 3, 6
@@ -242,6 +254,11 @@ def run(R):
     reg = {}   # what the harness registered last (targets and their weights), for the twin
     ALPHA = [("sys", 0), ("sys", 1), ("sys", 2), ("bnd", 0), ("bnd", 1), ("bnd", 2), ("adp", 0), ("adp", 1), ("bas", 0), ("bas", 1),
              ("bga", 0), ("bga", 1), ("sya", 0), ("sya", 1), ("tgt", 0), ("tgt", 1), ("tgt", 2), ("tgt", 3), ("fit", 0)]
+    NREG = len(ALPHA)         # the letters that register valid new values (random histories are drawn from these ...)
+    ALPHA = ALPHA + [("rej", 0)]      # a registration call that the library REJECTS (bounds that are not all finite / all infinite): it registers nothing
+    # ... and get 0-2 further letters inserted at random places: a rejected registration, or a re-registration of the estimator's
+    # OWN arrays (the argument is the very object the estimator holds)
+    EXTRA = [("rej", 0), ("tgt", 4), ("bnd", 3)]
 
     def ns_of(est):
         return est.A.shape[1] if hasattr(est, "A") else 4
@@ -249,6 +266,7 @@ def run(R):
     def apply_impl(est, op, arg):
         """returns the protocol text of the op actually applied"""
         if op == "sys":
+            reg["sources"] = S2 if arg == 1 else S1
             if arg == 0:
                 est.register_system(S1.copy(), ub=U1.copy()); return "sys %s 0 %s" % (ms(S1), opt_ub(U1))
             if arg == 2:
@@ -257,6 +275,10 @@ def run(R):
             est.register_system(S2.copy(), lb=L2.copy()); return "sys %s %s 0" % (ms(S2), opt_vec(L2))
         n = ns_of(est)
         if op == "bnd":
+            if arg == 3 and hasattr(est, "A"):
+                # the estimator's own bound arrays handed back to it (values unchanged: the model re-registers the same values)
+                lb, ub = est.lb.copy(), est.ub.copy()
+                est.register_bounds(lb=est.lb, ub=est.ub); return "bnd %s %s" % (opt_vec(lb), opt_ub(ub))
             if arg == 0:
                 lb = (L2 if n == 3 else np.r_[L2, 0.125])[:n]; est.register_bounds(lb=lb.copy()); return "bnd %s 0" % opt_vec(lb)
             if arg == 2:
@@ -278,8 +300,15 @@ def run(R):
             add = add and not matK
             x = x[:n]
             est.register_system_adaptation(x.copy(), add_baseline=ab, add=add); return "sya %s %d %d" % (vs(x), ab, add)
+        if op == "tgt" and arg == 4 and hasattr(est, "B"):
+            # re-registration of the estimator's OWN current targets and weights: the arguments are the very arrays it holds
+            # (after a fit() the working copy holds the fitted captures, which thereby become the registered targets)
+            B = np.array(est.B, dtype=float, copy=True); W = np.array(est.W, dtype=float, copy=True)
+            est.register_targets(est.B, W=est.W)
+            reg["tgt"] = (B, W); reg.pop("work", None)
+            return "tgt " + ms(B) + ((" vec " + vs(W)) if W.ndim == 1 else (" mat " + ms(W)))
         if op == "tgt":
-            B, W = TGT[arg]
+            B, W = TGT[arg % 4]
             if W is None:
                 est.register_targets(B.copy())
             else:
@@ -294,6 +323,30 @@ def run(R):
             reg["work"] = np.array(est.B, dtype=float, copy=True)
             return "fit " + ms(reg["work"])
         raise ValueError(op)
+
+    def rejected_call(est, rng):
+        """a registration call whose bounds the library rejects (it requires each bound vector to be all finite or all infinite:
+        a NaN entry -- a failed calibration measurement --, or finite and infinite entries mixed), alone or together with a valid
+        NEW value for the other bound / for the sources. Returns (description, thunk). The state machine's statement about a
+        registration call that raises: nothing is registered."""
+        via_system = bool(rng.integers(4) == 0)
+        src = (S1, S2)[int(rng.integers(2))]
+        n = src.shape[0] if via_system else ns_of(est)
+        bad_side = str(rng.choice(["ub", "lb"])); bad_kind = str(rng.choice(["nan", "mixed-inf"]))
+        other = str(rng.choice(["valid-new", "valid-new", "absent"]))
+        good = dict(lb=dyadic(rng, 0.0625, 0.5, 4, size=n), ub=dyadic(rng, 3.5, 5, 2, size=n))
+        bad = good[bad_side].copy(); j = int(rng.integers(n))
+        bad[j] = np.nan if bad_kind == "nan" else (np.inf if bad_side == "ub" else -np.inf)
+        kw = {bad_side: bad}
+        o_side = "lb" if bad_side == "ub" else "ub"
+        if other == "valid-new":
+            kw[o_side] = good[o_side]
+        if rng.integers(3) == 0:
+            kw = {k_: v.tolist() for k_, v in kw.items()}
+        desc = "%s(%s %s%s)" % ("register_system" if via_system else "register_bounds", bad_side, bad_kind, "" if other == "absent" else ", %s valid and new" % o_side)
+        if via_system:
+            return desc, (lambda: est.register_system(src.copy(), **kw))
+        return desc, (lambda: est.register_bounds(**kw))
 
     def impl_digest(est):
         d = {}
@@ -331,13 +384,73 @@ def run(R):
         for k_, v in arrs.items():
             if hsh(v) != h0[k_]:
                 probs.append("caller array `%s` was modified by a query" % k_)
+        if rng is not None and hasattr(est, "A"):
+            probs += aliased_queries(est, rng)
+        return probs
+
+    def aliased_queries(est, rng):
+        """queries whose explicit argument is one of the estimator's OWN arrays (est.B, est.target_B, est.lb, est.ub: `est.fit(est.B)` is
+        a natural thing to write): a query with explicit arguments is a function of the argument's VALUES and the registered values,
+        so it answers like the same call on an equal copy (same kind of result, same numbers to the accuracy the twin comparison
+        uses) -- and, like every query, changes nothing (checked by the caller on the state digest)."""
+        probs = []
+        n = est.A.shape[1]
+        bounded = bool(np.all(np.isfinite(est.ub))); nonneg = bool(np.all(est.lb >= 0)); under = n > est.A.shape[0]
+        cands = [("in_system", "lb", {}), ("system_relative_capture", "lb", {})]
+        if bounded:
+            cands += [("in_system", "ub", {}), ("system_capture", "ub", {})]
+        if hasattr(est, "B"):
+            for own in ("B", "B", "target_B"):
+                cands += [("fit", own, {}), ("fit", own, {}), ("minimize_variance", own, {}), ("in_hull", own, {})]
+                if nonneg:
+                    cands.append(("fit", own, dict(model="poisson")))
+                if under:
+                    cands.append(("fit_underdetermined", own, {}))
+                if bounded:
+                    cands.append(("hull_l1_scaling", own, {}))
+                    if under:
+                        cands.append(("range_of_solutions", own, dict(error="ignore")))
+        cheap = [c_ for c_ in cands if c_[0] in ("in_system", "system_capture", "system_relative_capture", "in_hull", "hull_l1_scaling")]
+        # one call from the whole list (mostly engine-backed fits) and one of the closed-form / geometric ones per bundle
+        for pool in (cands, cheap):
+            meth, own, kw = pool[int(rng.integers(len(pool)))]
+            obj = getattr(est, own)
+            if not isinstance(obj, np.ndarray):
+                continue
+            what = "%s(est.%s%s)" % (meth, own, "".join(", %s=%r" % kv for kv in kw.items()))
+            R.count("query-with-own-array:" + what)
+            st_a, r_a = call(getattr(est, meth), obj, **kw)
+            st_c, r_c = call(getattr(est, meth), np.array(obj, copy=True), **kw)
+            if st_a != st_c:
+                probs.append("%s %s but the same call on an equal copy of the array %s" % (what, "returns" if st_a == "ok" else "raises (%s)" % r_a, "returns" if st_c == "ok" else "raises (%s)" % r_c))
+                continue
+            if st_a != "ok":
+                R.count("query-with-own-array:both-raise-%s" % st_a)
+                continue
+            ta = r_a if isinstance(r_a, tuple) else (r_a,); tc = r_c if isinstance(r_c, tuple) else (r_c,)
+            if type(r_a) is not type(r_c) or len(ta) != len(tc):
+                probs.append("%s returns a %s, the same call on an equal copy of the array a %s" % (what, type(r_a).__name__, type(r_c).__name__))
+                continue
+            for a, b in zip(ta, tc):
+                a = np.asarray(a); b = np.asarray(b)
+                if a.dtype == object or b.dtype == object or a.shape != b.shape:
+                    probs.append("%s: result of shape %s, on an equal copy of the array %s" % (what, a.shape, b.shape)); break
+                if a.dtype.kind == "b" or meth in ("in_system", "system_capture", "system_relative_capture", "hull_l1_scaling"):
+                    same = np.array_equal(a, b, equal_nan=(a.dtype.kind == "f"))
+                else:
+                    tol = 1e-9 if meth == "range_of_solutions" else 1e-5
+                    fin = np.isfinite(a)
+                    same = np.array_equal(fin, np.isfinite(b)) and np.allclose(a[fin], b[fin], rtol=0, atol=tol * (float(np.max(np.abs(a[fin]))) + 1 if fin.any() else 1.0))
+                if not same:
+                    probs.append("%s answers differently from the same call on an equal copy of the array" % what); break
         return probs
 
     def spec_of(est, w0):
-        """the registered values of the estimator (bounds, K, baseline read back; targets and weights as the harness registered them)"""
+        """the registered values of the estimator (bounds, K, baseline read back: they are compared with the model after every step;
+        sources, targets and weights as the harness registered them last)"""
         has = hasattr(est, "A")
         return dict(filt=filt, w0=w0, K=np.array(est.K, dtype=float, copy=True), baseline=np.array(est.baseline, dtype=float, copy=True),
-                    sources=(np.array(est.sources, copy=True) if has else None), lb=(est.lb.copy() if has else None),
+                    sources=(np.array(reg["sources"], copy=True) if has else None), lb=(est.lb.copy() if has else None),
                     ub=(est.ub.copy() if has else None), tgt=reg.get("tgt"), work=reg.get("work"))
 
     fresh = FreshProcess()
@@ -357,7 +470,11 @@ def run(R):
     for i in range(nrand):
         rng = R.rng(2, i)
         L = int(rng.integers(5, 13 if quick else 26))
-        histories.append(("rand", [ALPHA[int(j)] for j in rng.integers(0, len(ALPHA), size=L)]))
+        h = [ALPHA[int(j)] for j in rng.integers(0, NREG, size=L)]
+        rx = R.rng(4, i)
+        for _ in range(int(rx.choice([0, 1, 1, 2, 2]))):
+            h.insert(int(rx.integers(0, len(h) + 1)), EXTRA[int(rx.integers(len(EXTRA)))])
+        histories.append(("rand", h))
     jobs = []
     for hi, (hk, hist) in enumerate(histories):
         k = "h%d" % hi
@@ -371,10 +488,13 @@ def run(R):
         texts = []
         digests = []
         problems = []
+        problems_A = []
+        done_ops = []
         queried_between = False
         err = None
         try:
             digests.append(("ok", impl_digest(est)))
+            done_ops = [("init", "")]      # the calls that advance the model (one digest each); rejected calls are not among them
             seq = ([("sys", 0)] if start_registered else []) + hist
             for si, (op, arg) in enumerate(seq):
                 with_queries = (hk == "rand" and rng.integers(2) == 0) or (hk == "ex" and hi % 7 == 0)
@@ -387,6 +507,23 @@ def run(R):
                         a, b = before[key], after[key]
                         if (a is None) != (b is None) or (a is not None and not np.array_equal(a, b)):
                             problems.append("a read-only query changed `%s`" % key)
+                if op == "rej":
+                    # a registration call the library rejects: the model is not advanced (a call that raises registers nothing), every
+                    # answer of the state digest is what it was, and the following steps are compared with the model as before
+                    desc, thunk = rejected_call(est, rng)
+                    before = impl_digest(est)
+                    st, o = call(thunk)
+                    after = impl_digest(est)
+                    R.count("rejected-registration:" + desc + (":no system registered" if not hasattr(est, "A") else ""))
+                    if st == "ok":
+                        # (not on the unchanged library) accepted: the model has no statement about such values; the history ends here
+                        problems_A.append("%s was accepted by the library: the state machine only describes bounds that are all finite or all infinite" % desc)
+                        break
+                    for key in before:
+                        a, b = before[key], after[key]
+                        if (a is None) != (b is None) or (a is not None and not np.array_equal(a, b)):
+                            problems.append("a rejected registration call, %s (raised %s), changed `%s`" % (desc, st, key))
+                    continue
                 if (op in ("bnd", "sya", "tgt") and not hasattr(est, "A")) or (op == "fit" and not (hasattr(est, "A") and hasattr(est, "B"))):
                     # the call asserts in the code; check that it does and leaves the state alone
                     st, o = call(apply_impl, est, op, arg)
@@ -394,10 +531,10 @@ def run(R):
                         problems.append("%s without a registered system did not assert (%s)" % (op, st))
                     # protocol text for the model (it answers `assert`)
                     dummy = {"bnd": "bnd 0 0", "sya": "sya %s 1 0" % vs(x1), "tgt": "tgt " + ms(B1) + " none", "fit": "fit " + ms(B1)}[op]
-                    texts.append(dummy); digests.append(("assert", None))
+                    texts.append(dummy); digests.append(("assert", None)); done_ops.append((op, arg))
                     continue
                 texts.append(apply_impl(est, op, arg))
-                digests.append(("ok", impl_digest(est)))
+                digests.append(("ok", impl_digest(est))); done_ops.append((op, arg))
             eng = eng_twin = None
             if hk == "rand" or hi % 5 == 0:
                 spec = spec_of(est, w0)
@@ -411,7 +548,7 @@ def run(R):
         R.driver.ask(k, "hist", ms(filt), "step 1 1", "vec " + vs(np.array([1.0])), vs(np.array([0.0])), vs(np.ones(nf) if w0 is None else w0), vs(px), ms(psig), len(texts), " ".join(texts))
         ops_named = [a for a, _ in (([("sys", 0)] if start_registered else []) + hist)]
         rereg = len(set(ops_named)) < len(ops_named)
-        jobs.append((k, hk, hist, start_registered, digests, problems, err, eng, eng_twin, rereg or queried_between))
+        jobs.append((k, hk, hist, start_registered, digests, done_ops, problems, problems_A, err, eng, eng_twin, rereg or queried_between))
         R.count("history:%s" % hk); R.count("length:%d" % len(hist)); R.count("constructor_w:%s" % ("default" if w0 is None else "per-filter"))
         if eng is not None and hasattr(est, "A"):
             R.count("lower_bounds_at_end:%s" % ("all >= 0" if np.all(est.lb >= 0) else "all negative" if np.all(est.lb < 0) else "mixed sign"))
@@ -423,15 +560,19 @@ def run(R):
                                                       "some outside gamut" if ("in_hull_registered" in eng and not np.all(eng["in_hull_registered"])) else "all inside"))
     fresh.finish()
     R.driver.run()
-    for k, hk, hist, start_registered, digests, problems, err, eng, eng_twin, nontriv in jobs:
+    for k, hk, hist, start_registered, digests, done_ops, problems, problems_A, err, eng, eng_twin, nontriv in jobs:
         eng_fresh, fresh_err = fresh.get(k)
         c = dict(k=k, kind=hk, start_registered=start_registered, history=["%s/%d" % (a, b) for a, b in hist])
         R.case(c, (k,) if nontriv else None, sample=(hk == "rand" and k.endswith("3")))
         sig = "C14"
         if err:
             R.failB(dict(c, impl_error=err), "history raised: %s" % err, sig + ":raises"); continue
+        for p_ in sorted(set(problems_A)):
+            R.failA(c, p_)
         for p_ in sorted(set(problems)):
-            R.failB(c, p_, sig + ":" + ("caller-array" if "caller" in p_ else "query-changed-state" if "read-only" in p_ else "assert"))
+            R.failB(c, p_, sig + ":" + ("caller-array" if "caller" in p_ else "query-changed-state" if "read-only" in p_ else
+                                        "rejected-registration-changed-state" if "rejected registration" in p_ else
+                                        "argument-identity" if "equal copy" in p_ else "assert"))
         raw = " ".join(R.driver.ans.get(k, []))
         if raw.startswith("ERR"):
             R.failA(c, "model error: " + raw); continue
@@ -495,7 +636,7 @@ def run(R):
                 checks.append("baseline = %s, model %s" % (bb.tolist(), [float(v) for v in base_m[1]]))
             bad = [x for x in checks if x]
             if bad and not mismatch:
-                mismatch = "after step %d (%s): %s" % (si, "/".join(map(str, ([("init", "")] + [("sys", 0)] * start_registered + hist)[si])), bad[0])
+                mismatch = "after step %d (%s): %s" % (si, "/".join(map(str, done_ops[si])), bad[0])
             if mismatch:
                 break
         if mismatch:
